@@ -93,12 +93,42 @@ def all_topologies(n, internet_only_to_1):
         yield t
 
 
+def all_trees(n):
+    """all labelled trees on the n non-internet subnets (Pruefer sequences), subnet 1 public"""
+    N = n + 1
+    if n == 1:
+        yield [[1, 1], [1, 1]]
+        return
+    for seq in itertools.product(range(1, n + 1), repeat=max(0, n - 2)):
+        degree = [1] * (n + 1)
+        for x in seq:
+            degree[x] += 1
+        edges = []
+        seq_l = list(seq)
+        deg = degree[:]
+        for x in seq_l:
+            for leaf in range(1, n + 1):
+                if deg[leaf] == 1:
+                    edges.append((leaf, x))
+                    deg[leaf] -= 1
+                    deg[x] -= 1
+                    break
+        rest = [v for v in range(1, n + 1) if deg[v] == 1]
+        edges.append((rest[0], rest[1]))
+        t = [[1 if i == j else 0 for j in range(N)] for i in range(N)]
+        t[0][1] = t[1][0] = 1
+        for a, b in edges:
+            t[a][b] = t[b][a] = 1
+        yield t
+
+
 def _topo_job(args):
     n, only1, part, parts = args
     import_nasim()
     from nasim.envs.utils import get_minimal_hops_to_goal
     out = {"cases": 0, "nontrivial": 0, "violations": [], "unreachable": 0}
-    for idx, t in enumerate(all_topologies(n, only1)):
+    gen = all_trees(n) if only1 == "trees" else all_topologies(n, only1)
+    for idx, t in enumerate(gen):
         if idx % parts != part:
             continue
         for r in range(1, n + 1):
@@ -357,8 +387,10 @@ def run(pid, tier):
     with mp.get_context("fork").Pool(processes=n) as pool:
         res1 = pool.map(_scen_job, fam, chunksize=max(1, len(fam) // (n * 6)))
         tj = [(nn, False, p, 4) for nn in (2, 3, 4) for p in range(4)] + [(5, True, p, 16) for p in range(16)]
+        tj += [(6, "trees", p, 32) for p in range(32)]          # all 1296 labelled trees on 6 subnets
         if tier == "thorough":
             tj += [(5, False, p, 64) for p in range(64)]
+            tj += [(7, "trees", p, 128) for p in range(128)]   # all 16807 labelled trees on 7 subnets
         res2 = pool.map(_topo_job, tj, chunksize=1)
     violations = [v for r in res1 for v in r["violations"]] + [v for r in res2 for v in r["violations"]]
     # report each kind once per engine with a replay; count all
@@ -376,8 +408,8 @@ def run(pid, tier):
         "exhaustive": True, "scenarios_with_complete_graph": len(fam),
         "scenarios_with_goal_states": sum(1 for r in res1 if r["goal_states"]),
         "topology_x_sensitive_set_cases": cases, "unreachable_sensitive_sets_skipped": sum(r["unreachable"] for r in res2),
-        "bound": "family scenarios: complete graphs (<= 6 hosts); topologies: all on <=4 subnets, all 5-subnet ones behind one public subnet"
-                 + (" + all 5-subnet ones with any public set" if tier == "thorough" else ""),
+        "bound": "family scenarios: complete graphs (<= 6 hosts); topologies: all on <=4 subnets, all 5-subnet ones behind one public subnet, all labelled trees on 6 subnets"
+                 + (" + all 5-subnet ones with any public set + all labelled trees on 7 subnets" if tier == "thorough" else ""),
     }
     assume = ["domain of the property: action costs >= 1, non-sensitive host values <= 1; discovery values in {0,1}",
               "episodes end at the first goal state; with costs >= 1 non-state-changing steps lose reward, so they are never on an optimal path (checked)"]
